@@ -139,12 +139,17 @@ def run_one(h, con, ln, si4, ma, mask):
         elif line.startswith("mask="):
             obs["mask"] = [int(x) for x in line[5:].split(",") if x]
     rc, hop = S.decode(mask, con.SERV, ma)
-    exp = {"rc": rc}
+    exp = {"rc": "error (< 0)" if rc else "success (>= 0)"}
     bad = {}
     if res.get("sanitizer") or res["rc"] != 0:
         bad["sanitizer"] = [res.get("sanitizer") or "exit status %s" % res["rc"], "no sanitizer report"]
-    if obs.get("rc") != rc:
-        bad["rc"] = [obs.get("rc"), rc]
+    if len(S.cell_alloc(mask, con.SERV)) > S.MAX_HOPPING:
+        # outside the statement's quantifier (cell allocations of 0..64 channels): only memory safety is judged
+        return bad, {"rc": obs.get("rc"), "sanitizer": res.get("sanitizer"), "outside_the_statements_quantifier": "cell allocation of %d channels" % len(S.cell_alloc(mask, con.SERV))}, exp
+    # the statement asks for an error for bitmaps longer than 8 octets and is silent about the value returned on success (both callers,
+    # sysinfo.c and gsm48_rr.c, ignore it): error <=> negative
+    if not isinstance(obs.get("rc"), int) or (obs["rc"] < 0) != (rc != 0):
+        bad["rc"] = [obs.get("rc"), exp["rc"]]
     if rc == 0 and "hopping" in obs:
         exp.update(hopp_len=len(hop), hopping=hop)
         if obs.get("hopp_len") != len(hop):
